@@ -41,14 +41,17 @@ impl<'de> Multipart<'de> {
                 if !is_unselected(&file) {
                     files.push(file);
                 }
-                while self.peek().is_some_and(|part| match part {
-                    Part::File { name: next_name, .. } => name == *next_name,
-                    Part::Text { .. } => false,
-                }) {
-                    let Some(Part::File { file, .. }) = self.0.pop()
-                        else {unsafe {std::hint::unreachable_unchecked()}};
-                    if !is_unselected(&file) {
-                        files.push(file);
+                /* the other files of this name, wherever they stand in the form
+                   ( parts of one name need not be adjacent ), last first like the pops above */
+                let mut i = self.0.len();
+                while i > 0 {
+                    i -= 1;
+                    if matches!(&self.0[i], Part::File { name: other, .. } if *other == name) {
+                        let Part::File { file, .. } = self.0.remove(i)
+                            else {unsafe {std::hint::unreachable_unchecked()}};
+                        if !is_unselected(&file) {
+                            files.push(file);
+                        }
                     }
                 }
 
